@@ -6,6 +6,34 @@ ROOT = os.path.dirname(os.path.dirname(os.path.abspath(__file__)))
 ALL = [f"C{i:02d}" for i in range(1, 20)]
 
 CHECKS = {
+    "C01": dict(
+        category="exploration",
+        text="Bounded-exhaustive exploration: every operation of a selection grammar over the schema family K (all selection kinds singly and in pairs, "
+             "70 wrapper-shape fields) x every response in the choice tree of a graphql-core reference executor (null at every nullable position, list length 1/0/2, "
+             "every runtime type) within a deviation bound x directive-variable assignments x the 8 snake/sync/OpenTelemetry configurations on the single-item "
+             "sub-corpus; the real generated method is driven through MockTransport and the returned object compared with the response.",
+        note="Trusted: graphql-core execution/validation as reference semantics, pydantic, httpx MockTransport. Schemas are the family K, not all schemas; responses within deviation bound 2 (quick) / 3 (thorough).",
+        technique="bounded-exhaustive input enumeration + choice-point (deviation-bounded DFS) exploration of reference-executor answers against the real generated client",
+        design="§3 C01",
+    ),
+    "C02": dict(
+        category="exploration",
+        text="Bounded-exhaustive enumeration of authored documents (operation grammar over K, 22 string-literal classes x 6 placements and all literal pairs, all fragment DAGs up to 3/4 fragments "
+             "x type assignments x root configurations, with and without ExtractOperationsPlugin); the request actually sent by each generated method is captured and compared "
+             "AST-wise with the authored operation plus its reachable fragment closure, and validated with the full rule set.",
+        note="Trusted: graphql-core parser/validator/ast_to_dict. String contents are covered by literal classes, not all strings.",
+        technique="bounded-exhaustive input enumeration with a translation-validation oracle (sent AST vs authored AST) on the real generated client",
+        design="§3 C02",
+    ),
+    "C05": dict(
+        category="exploration",
+        text="For every operation of the single-item grammar corpus and the 70 wrapper-shape fields and every explored conformant response, every single-point corruption "
+             "(null, key removed, other JSON kind, other __typename) is validated with the generated model; the statement's four clauses decide which must be rejected. "
+             "Converse: every visited model field's annotation is compared with an independent image of its GraphQL type.",
+        note="Trusted: graphql-core, pydantic. Lax scalar coercions documented by pydantic are excluded as the statement does not list them.",
+        technique="exhaustive single-point fault enumeration over enumerated conformant responses against the real generated models",
+        design="§3 C05",
+    ),
     "C12": dict(
         category="exploration",
         text="Complete enumeration of the finite decision table: every status 100..599 x 24 body classes x the four bundled clients "
